@@ -330,6 +330,42 @@ def r_pairing(c):
                             "all required to agree")
 
 
+def r_memo_and_identity(c):
+    m = c.model
+    # R04-MEMO-KEY: the memo of pairwise comparisons is keyed on BOTH operands
+    flow = Flow(m, EQ, max_depth=3)
+    s = flow.handler("rec", [None, None], roots=("expr1", "expr2"))
+    keyed = [e for e in s.keyed if e.key]
+    if not keyed:
+        raise AnalysisError("anchor vanished: memo table in EqualityComparer.rec")
+    for e in keyed:
+        roots = {r for (r, _p, _f) in e.key}
+        c.check({"expr1", "expr2"} <= roots, "R04-MEMO-KEY", "EqualityComparer.rec",
+                f"self.{e.attr}:{m.frag(e.node, 50)}", m.loc(m.module_of(e.node), e.node),
+                f"memo key depends on {sorted(roots)} only: the cached verdict for "
+                "(a, b) would be reused for (a, c)")
+    # R04-HASH-IDENTITY: identity hash <=> identity equality
+    excl = hash_exclusions(m)
+    for k in concrete_kinds(m):
+        hp = hash_provider(m, k)
+        mm = handler_name(m, EQ, k, mro_fallback=_eq_has_mro_fallback(m))
+        if mm is None:
+            continue
+        fd = m.resolve_method(EQ, mm)[1]
+        ident_eq = is_identity_handler(fd)
+        ident_hash = hp[0] == "identity" or (
+            hp[0] == "explicit" and any(
+                isinstance(n, ast.Return) and ast.unparse(n.value) == "id(self)"
+                for n in ast.walk(hp[2])))
+        if ident_hash or ident_eq:
+            c.check(ident_hash == ident_eq or (ident_eq and not ident_hash and False),
+                    "R04-HASH-IDENTITY", f"EqualityComparer.{mm}", short(k),
+                    m.loc(m.module_of(fd), fd),
+                    f"{short(k)} hashes by {'identity' if ident_hash else 'structure'} "
+                    f"but compares by {'identity' if ident_eq else 'structure'}: equal "
+                    "nodes can hash differently")
+
+
 def r_hash_order(c):
     m = c.model
     for k in concrete_kinds(m):
@@ -486,9 +522,11 @@ def r_pickle(c):
 
 SPEC = Spec(
     prop="C04",
-    rules=[r_exhaustive, r_eq_field, r_pairing, r_hash_order, r_pickle],
+    rules=[r_exhaustive, r_eq_field, r_pairing, r_memo_and_identity, r_hash_order,
+           r_pickle],
     floors={"R04-EXHAUSTIVE": 23, "R04-EQ-FIELD": 100, "R04-HASH-SUBSET": 80,
-            "R04-PAIRING": 80, "R04-PICKLE": 5, "R04-HASH-ORDER": 3, "R04-NEQ": 20},
+            "R04-PAIRING": 80, "R04-PICKLE": 5, "R04-HASH-ORDER": 3, "R04-NEQ": 20,
+            "R04-MEMO-KEY": 2, "R04-HASH-IDENTITY": 1},
     explanation=(
         "Static (kind, field) enumeration over /repo/pytato: for every concrete "
         "node kind K the EqualityComparer handler the dispatcher would select is "
